@@ -77,7 +77,7 @@ def generate(seed, profile):
                 continue
             # the hundreds of edits of a big macro-op happen in one go: years between each of them would carry the
             # clock past 2155, the last year a directory record date can hold
-            op['dt'] = draw_dt(renv) if not (many and j) else 0.0
+            op['dt'] = draw_dt(renv) if not (many and j) and not op.get('_same_instant') else 0.0
             model.apply(op)
             ops.append(op)
     if profile.final_restart and (not ops or ops[-1]['op'] != 'restart'):
